@@ -344,17 +344,20 @@ func vFieldValue(obj any, name string) reflect.Value {
 	return reflect.NewAt(f.Type(), unsafe.Pointer(f.UnsafeAddr())).Elem()
 }
 
-// vGoroutineParked tells whether some goroutine whose stack holds a frame of the named function is blocked in the given
-// state (e.g. "chan receive").
+// vGoroutineParked tells whether there is a goroutine whose stack holds a frame of the named function and every such
+// goroutine is blocked in the given state (e.g. "chan receive"): a loop of an earlier instance that is still parked must
+// not stand in for the loop of the current one.
 func vGoroutineParked(fn, state string) bool {
 	buf := make([]byte, 1<<20)
 	buf = buf[:runtime.Stack(buf, true)]
+	found := false
 	for _, g := range strings.Split(string(buf), "\n\n") {
 		if strings.Contains(g, fn) {
-			if hdr := strings.SplitN(g, "\n", 2)[0]; strings.Contains(hdr, "["+state) {
-				return true
+			found = true
+			if hdr := strings.SplitN(g, "\n", 2)[0]; !strings.Contains(hdr, "["+state) {
+				return false
 			}
 		}
 	}
-	return false
+	return found
 }
